@@ -666,6 +666,11 @@ Array<T>& Array<T>::insert(int k, const T& x)
 	int s = h->s;
 	if (k == -1)
 		k = n;
+	if (&x >= _a && &x < _a + n) // x is an element of this array: it would be moved or freed below
+	{
+		T y(x);
+		return insert(k, y);
+	}
 	if (n < s) {}
 	else
 	{
